@@ -1,10 +1,16 @@
 """Worker side of the C14 tie: one generated module in a fresh process; real generated client -> real RMCClient
--> in-memory transport -> real RMCClient -> real generated server with a recording implementation, and
-forward-compatibility splices on every versioned structure."""
+-> in-memory transport -> real RMCClient -> real generated server with a recording implementation,
+forward-compatibility splices on every versioned structure, sequences of connections sharing a Settings object,
+bursts of calls in flight at the same time on one connection (transport whose send yields to the event loop), and a
+repetition of every string-carrying method with non-ASCII content in every string-valued position.
+
+An exception of the library that escapes a unit of work (a connection, a burst, the splices of a configuration) is
+not an infrastructure error: it is recorded with the input that was being processed (`doing`) and reported."""
 import asyncio, os, random, struct, sys, traceback
 
 from schema_proto2lean import load_env, code
 import schema_values as SV
+import c14_values as V14
 from schema_tie import exc_name, module_configs, driver_batch, make_class_name, FUEL
 
 
@@ -16,7 +22,18 @@ def task(args):
         _task(repo, name, cfgs, seed, per_item, exe, deep, res)
     except Exception:
         res["error"] = traceback.format_exc()
+        res["error_in_library"] = _in_library(res["error"], repo)
     return res
+
+
+def _in_library(tb, repo):
+    """does the traceback pass through the tree under test?"""
+    return os.path.join(os.path.abspath(repo), "nintendo") + os.sep in tb
+
+
+def _short(x, n=1500):
+    x = str(x)
+    return x if len(x) <= n else x[:n] + "...(%d more)" % (len(x) - n)
 
 
 def _task(repo, name, cfgs, seed, per_item, exe, deep, res):
@@ -31,13 +48,15 @@ def _task(repo, name, cfgs, seed, per_item, exe, deep, res):
     env, problem = load_env(os.path.join(repo, "nintendo/files/proto"), repo, name)
     if env is None: raise RuntimeError(problem)
     rng = random.Random("rpc/%s/%s/%r" % (seed, name, cfgs[0]))
-    gen = SV.Gen(env, rng)
+    gen = V14.Gen14(env, rng)
     real = SV.Real(gen, mod, common, notification)
     tags = res["tags"]
-    def tag(t): tags[t] = tags.get(t, 0) + 1
+    def tag(t, n=1): tags[t] = tags.get(t, 0) + n
     lines = env.driver_lines()
     nsetup = len(lines)
     checks = []
+    doing = {}          # breadcrumb: the input being processed (reported when the library raises outside a guarded call)
+    crashes = []
 
     class Pipe:
         def __init__(self, minor):
@@ -63,10 +82,6 @@ def _task(repo, name, cfgs, seed, per_item, exe, deep, res):
         s = nexsettings.default()
         s["nex.version"] = cfg[0]; s["nex.struct_header"] = 0; s["nex.pid_size"] = cfg[2]
         return s
-
-    async def session(ci, cfg):
-        for p in env.protos:       # one RMC connection per protocol (two protocols of a module may share an id)
-            await proto_session(ci, cfg, p)
 
     async def proto_session(ci, cfg, the_proto):
         st = mk_settings(cfg)
@@ -115,10 +130,20 @@ def _task(repo, name, cfgs, seed, per_item, exe, deep, res):
                                 r = "exc " + exc_name(e)
                             checks.append(("notimpl", "%s:%s.%s:unimplemented" % (name, pname, m["name"]), len(lines), {"r": r, "client_has": False}))
                             lines.append("dispatch %d %d 0" % (code(pname), m["id"]))
-                        for rep in range(per_item):
-                            key = "%s:%s.%s:%r:%d" % (name, pname, m["name"], cfg, rep)
-                            args = [gen.gen(v["type"], cfg, 0, False) for v in m["request"]]
-                            rets = [gen.gen(v["type"], cfg, 0, len(m["response"]) == 1 and v["type"]["name"] != "anydata") for v in m["response"]]
+                        reps = list(range(per_item))
+                        if gen.method_stringy(m):
+                            # every string-valued position of this method holds non-ASCII text (multi-byte UTF-8, astral)
+                            reps += ["na%d" % i for i in range(1 if per_item == 1 else 2)]
+                        for rep in reps:
+                            key = "%s:%s.%s:%r:%s" % (name, pname, m["name"], cfg, rep)
+                            gen.nonascii = isinstance(rep, str)
+                            try:
+                                args = [gen.gen(v["type"], cfg, 0, False) for v in m["request"]]
+                                rets = [gen.gen(v["type"], cfg, 0, len(m["response"]) == 1 and v["type"]["name"] != "anydata") for v in m["response"]]
+                            finally:
+                                gen.nonascii = False
+                            doing.clear(); doing.update(op="call", protocol=pname, method=m["name"], cfg=list(cfg), minor_version=minor,
+                                         args=_short(SV.vals(args), 4000), returns=_short(SV.vals(rets), 4000))
                             rec = {}
                             rargs = [real.build_typed(v["type"], t) for v, t in zip(m["request"], args)]
                             rrets = [real.build_typed(v["type"], t) for v, t in zip(m["response"], rets)]
@@ -145,7 +170,8 @@ def _task(repo, name, cfgs, seed, per_item, exe, deep, res):
                                     await anyio.sleep(0)
                             delattr(srv, m["name"])
                             checks.append(("rpc", key, len(lines), {"flow": flow, "cfg": cfg, "proto": pname, "method": m, "args": args, "rets": rets,
-                                                                    "sargs": rec.get("args"), "result": result, "noresponse": p["noresponse"]}))
+                                                                    "sargs": rec.get("args"), "result": result, "noresponse": p["noresponse"],
+                                                                    "nonascii": isinstance(rep, str)}))
                             lines.append("visreq %s %s %s" % (cs, mref, SV.vals(args)))
                             lines.append("visresp %s %s %s" % (cs, mref, SV.vals(rets)))
                             lines.append("req %s %s %s" % (cs, mref, SV.vals(args)))
@@ -178,17 +204,29 @@ def _task(repo, name, cfgs, seed, per_item, exe, deep, res):
         for s in env.versioned():
             sname = s["name"]
             if sname not in env.structs: continue
-            tree = gen.obj(sname, cfg)
-            obj = real.build(tree)
-            out = streams.StreamOut(st); out.add(obj); rb = out.get()
-            # walk the hierarchy levels to the structure's own level
-            pos = 0
-            for _ in range(len(gen.chain(sname)) - 1):
-                pos += 5 + struct.unpack_from("<I", rb, pos + 1)[0]
-            ver = rb[pos]; ln = struct.unpack_from("<I", rb, pos + 1)[0]
-            body = rb[pos + 5: pos + 5 + ln]
-            assert pos + 5 + ln == len(rb)
-            base = streams.StreamIn(rb, st).extract(real.cls(sname))
+            gen.nonascii = rng.random() < 0.3
+            try: tree = gen.obj(sname, cfg)
+            finally: gen.nonascii = False
+            doing.clear(); doing.update(op="forward-compat", struct=sname, cfg=[cfg[0], 1, cfg[2]], value=_short(SV.to_val(tree), 4000))
+            rb = None
+            try:
+                obj = real.build(tree)
+                out = streams.StreamOut(st); out.add(obj); rb = out.get()
+                # walk the hierarchy levels to the structure's own level
+                pos = 0
+                for _ in range(len(gen.chain(sname)) - 1):
+                    pos += 5 + struct.unpack_from("<I", rb, pos + 1)[0]
+                ver = rb[pos]; ln = struct.unpack_from("<I", rb, pos + 1)[0]
+                body = rb[pos + 5: pos + 5 + ln]
+                if pos + 5 + ln != len(rb): raise ValueError("the length prefixes of the hierarchy levels do not add up to the encoded size")
+                base = streams.StreamIn(rb, st).extract(real.cls(sname))
+            except Exception as e:
+                # the library cannot write / read back its own structure: a failing input for the round trip itself
+                checks.append(("selfrt", "%s:%s:%r:self" % (name, sname, cfg), len(lines),
+                               {"struct": sname, "cfg": cfg, "value": SV.to_val(tree), "hex": SV.hx(rb) if rb else None,
+                                "exc": "%s: %s" % (exc_name(e), e), "stage": "decode" if rb is not None else "encode"}))
+                lines.append("vis %s S %d %s" % (cs, code(sname), SV.to_val(tree)))
+                continue
             if deep:
                 vers = list(range(ver + 1, 256)); ks = list(range(1, 17))
                 combos = [(v, rng.choice(ks)) for v in vers] + [(rng.choice(vers), k) for k in ks]
@@ -235,6 +273,8 @@ def _task(repo, name, cfgs, seed, per_item, exe, deep, res):
             try:
                 for m, args, rets in calls:
                     rec = {}
+                    doing.clear(); doing.update(op="call on one connection of a sequence of connections", protocol=p["name"], method=m["name"], minor_version=minor,
+                                                args=_short(SV.vals(args), 4000), returns=_short(SV.vals(rets), 4000))
                     rargs = [real.build_typed(v["type"], t) for v, t in zip(m["request"], args)]
                     rrets = [real.build_typed(v["type"], t) for v, t in zip(m["response"], rets)]
                     if len(rrets) > 1:
@@ -306,26 +346,367 @@ def _task(repo, name, cfgs, seed, per_item, exe, deep, res):
                                                             "calls": [(m["name"], SV.vals(a)[:1500], SV.vals(r)[:1500]) for m, a, r in calls]}))
                     lines.append("rmccfg 0 %d" % minor)
 
+    # ---------------- several calls in flight at the same time on ONE connection
+    class YPipe(Pipe):
+        """in-memory transport whose send() yields to the event loop before the datagram is on its way (what the PRUDP
+        send lock / socket write do); either serialised by a lock, or free-running (datagrams of concurrent senders may
+        overtake each other). Every send / receive is logged with the task that made it."""
+        def __init__(self, minor, side, sh):
+            Pipe.__init__(self, minor); self.side = side; self.sh = sh
+            self.lock = anyio.Lock() if sh["lock"] else None
+        async def _deliver(self, data):
+            for _ in range(self.sh["yrng"].choice(self.sh["yields"][self.side])): await anyio.sleep(0)
+            await self.peer.q.put(data)
+            # ... and may return to the sender only some time after the datagram has left (lock release, checkpoints)
+            for _ in range(self.sh["yrng"].choice(self.sh["yields"]["after"])): await anyio.sleep(0)
+        async def send(self, data):
+            data = bytes(data)
+            self.sh["ev"].append(("send", self.side, asyncio.current_task(), data)); self.sh["progress"] += 1
+            if self.lock is not None:
+                async with self.lock: await self._deliver(data)
+            else:
+                await self._deliver(data)
+        async def recv(self):
+            d = await self.q.get()
+            if d is None: raise anyio.EndOfStream
+            self.sh["ev"].append(("recv", self.side, None, d)); self.sh["progress"] += 1
+            return d
+
+    def call_id_of(data):
+        off = 7 if (data[4] & 0x7F) == 0x7F else 5
+        return struct.unpack_from("<I", data, off)[0]
+
+    def plan_burst(cfg, p, gi):
+        ms = [m for m in p["methods"] if m["supported"]]
+        rich = [m for m in ms if m["request"] and (m["response"] or p["noresponse"])] or ms
+        m0 = rng.choice(rich)
+        burst = [m0] * rng.choice([2, 3, 4]) + [rng.choice(ms) for _ in range(rng.choice([0, 1, 2, 3, 4]))]
+        rng.shuffle(burst)
+        calls = burst + [rng.choice(ms)]            # the last one is made alone, after the burst
+        gen.nonascii = gi % 3 == 2
+        try:
+            args = [[gen.gen(v["type"], cfg, 0, False) for v in m["request"]] for m in calls]
+            rets = {}
+            for m in calls:
+                rets.setdefault(m["name"], []).append(
+                    [gen.gen(v["type"], cfg, 0, len(m["response"]) == 1 and v["type"]["name"] != "anydata") for v in m["response"]])
+        finally:
+            gen.nonascii = False
+        return calls, args, rets
+
+    async def burst(cfg, p, gi):
+        """K calls started together on one RMCClient (the same method several times with different values, and other
+        methods), then one call alone. The implementation returns, for the j-th arrival of a method, the j-th prepared
+        value set; afterwards every caller must be matched with an arrival that carries its arguments and whose
+        returned values are the ones it got back."""
+        calls, args, rets = plan_burst(cfg, p, gi)
+        n = len(calls)
+        minor = rng.choice([3, 4, 5]) if cfg[1] else rng.choice([0, 1, 2])
+        # the caller's send always yields at least once in two of three bursts; the answering side may also send without
+        # yielding, so that several responses can be waiting before the first caller is resumed
+        sh = {"ev": [], "progress": 0, "yrng": random.Random(rng.random()), "lock": gi % 2 == 0,
+              "yields": {"c": (0, 1, 2, 3) if gi % 3 == 1 else (1, 1, 2, 3), "s": (0, 0, 1, 2, 3), "after": (0, 0, 1, 2, 4)}}
+        key = "%s:%s:burst:%r:%d" % (name, p["name"], cfg, gi)
+        doing.clear(); doing.update(op="burst of concurrent calls", protocol=p["name"], cfg=list(cfg), minor_version=minor,
+                     calls=[(m["name"], _short(SV.vals(a), 1000)) for m, a in zip(calls, args)])
+        a, b = YPipe(minor, "c", sh), YPipe(minor, "s", sh); a.peer = b; b.peer = a
+        st = mk_settings(cfg)
+        rc, rs = rmc.RMCClient(st, a), rmc.RMCClient(st, b)
+        # a connection that has already made many calls: the 32-bit call id counter near a byte / word boundary or about to wrap
+        start_id = rng.choice([0xFF, 0xFFFF, 0xFFFFFFFE, 0xFFFFFFFF, 0xFFFFFFFF - rng.randrange(8), rng.randrange(1 << 32)]) if gi % 3 == 2 else None
+        if start_id is not None and isinstance(getattr(rc, "call_id", None), int): rc.call_id = start_id
+        else: start_id = None
+        srv = getattr(mod, make_class_name(p["name"], "Server"))()
+        cli = getattr(mod, make_class_name(p["name"], "Client"))(rc)
+        arrivals = {m["name"]: [] for m in calls}
+        robjs = {}
+        for m in calls:
+            if m["name"] in robjs: continue
+            robjs[m["name"]] = []
+            for rt in rets[m["name"]]:
+                rr = [real.build_typed(v["type"], t) for v, t in zip(m["response"], rt)]
+                if len(rr) > 1:
+                    robj = rmc.RMCResponse()
+                    for v, x in zip(m["response"], rr): setattr(robj, v["name"], x)
+                elif len(rr) == 1: robj = rr[0]
+                else: robj = None
+                robjs[m["name"]].append(robj)
+            async def impl(client, *a_, _n=m["name"]):
+                j = len(arrivals[_n]); arrivals[_n].append(a_); sh["progress"] += 1
+                for _ in range(sh["yrng"].choice((0, 1, 2))): await anyio.sleep(0)
+                if j >= len(robjs[_n]): raise RuntimeError("implementation called more often than the method was called")
+                return robjs[_n][j]
+            setattr(srv, m["name"], impl)
+        rargs = [[real.build_typed(v["type"], t) for v, t in zip(m["request"], a_)] for m, a_ in zip(calls, args)]
+        outcome = [None] * n
+        owner = {}              # asyncio task -> caller index
+        done = [0]
+        orig_request = rc.request
+        async def request(protocol, method, body, noresponse=False):
+            t = asyncio.current_task()
+            try:
+                r = await orig_request(protocol, method, body, noresponse)
+            except common.RMCError as e:
+                sh["ev"].append(("done", "c", t, ("rmc", e.result().code()))); raise
+            except BaseException as e:
+                sh["ev"].append(("done", "c", t, ("exc", type(e).__name__))); raise
+            sh["ev"].append(("done", "c", t, ("none",) if r is None else ("body", bytes(r))))
+            return r
+        rc.request = request
+        async def caller(i, stagger):
+            owner[asyncio.current_task()] = i
+            try:
+                for _ in range(stagger): await anyio.sleep(0)
+                try:
+                    result = await getattr(cli, calls[i]["name"])(*rargs[i])
+                    outcome[i] = ("ok", result)
+                except common.RMCError as e:
+                    outcome[i] = ("rmcerror " + e.name(), None)
+                except Exception as e:
+                    outcome[i] = ("err " + exc_name(e), None)
+            finally:
+                done[0] += 1; sh["progress"] += 1
+        async def settle(cond, scope=None):
+            """let the event loop run until cond() holds; everything is in memory, so when nothing at all has happened
+            for 2000 consecutive passes of the loop the remaining tasks wait for something that will never come"""
+            idle, last = 0, sh["progress"]
+            while not cond():
+                await anyio.sleep(0)
+                if sh["progress"] != last: idle, last = 0, sh["progress"]
+                else:
+                    idle += 1
+                    if idle > 2000:
+                        if scope is not None: scope.cancel()
+                        return False
+            return True
+        async def phase(idxs):
+            target = done[0] + len(idxs)
+            async with anyio.create_task_group() as cg:
+                for i in idxs: cg.start_soon(caller, i, rng.choice([0, 0, 1, 2]))
+                await settle(lambda: done[0] >= target, cg.cancel_scope)
+        async with anyio.create_task_group() as tg:
+            tg.start_soon(rc.start, []); tg.start_soon(rs.start, [srv])
+            try:
+                with anyio.fail_after(60):
+                    await phase(list(range(n - 1)))
+                    if p["noresponse"]: await settle(lambda: sum(len(x) for x in arrivals.values()) >= n - 1)
+                    await phase([n - 1])
+                    if p["noresponse"]: await settle(lambda: sum(len(x) for x in arrivals.values()) >= n)
+            finally:
+                await rc.close()
+        # ---- what was observed -> payload + driver lines
+        cs = "%d %d %d %d" % (cfg[0], cfg[1], cfg[2], FUEL)
+        i0 = len(lines)
+        pl = {"cfg": cfg, "proto": p["name"], "noresponse": p["noresponse"], "minor": minor, "lock": sh["lock"], "yields": sh["yields"], "start_id": start_id, "calls": calls, "args": args, "rets": rets,
+              "arrivals": arrivals, "outcome": outcome, "ret_line": {}, "mux": [], "burst": n - 1,
+              "wire": [(e[1], e[3].hex()) for e in sh["ev"] if e[0] == "send"]}
+        checks.append(("conc", key, i0, pl))
+        for m, a_ in zip(calls, args):
+            lines.append("visreq %s %d %d %s" % (cs, code(p["name"]), code(m["name"]), SV.vals(a_)))
+        for mn, rl in rets.items():
+            m = next(x for x in calls if x["name"] == mn)
+            for j, rt in enumerate(rl):
+                pl["ret_line"][(mn, j)] = len(lines)
+                lines.append("visresp %s %d %d %s" % (cs, code(p["name"]), code(mn), SV.vals(rt)))
+                lines.append("sresp %s %d %d %s" % (cs, code(p["name"]), code(mn), SV.vals(rt)))
+        # the client's call-matching machine, fed with what happened on the client side in the order it happened
+        first = next((call_id_of(x) for kind, side, t, x in sh["ev"] if side == "c" and kind == "send"), 1)
+        pl["mux"].append((len(lines), "new", None, (start_id, first)))
+        lines.append("mux new %d" % first)
+        model_task = {}          # asyncio task -> task number of the model (= order of the request() sections)
+        for kind, side, t, x in sh["ev"]:
+            if side != "c": continue
+            if kind == "send":
+                model_task[t] = len(model_task)
+                pl["mux"].append((len(lines), "call", owner.get(t), call_id_of(x)))
+                lines.append("mux call %d" % (1 if p["noresponse"] else 0))
+            elif kind == "recv":
+                pl["mux"].append((len(lines), "recv", None, x.hex()))
+                lines.append("mux recv %s" % x.hex())
+            elif kind == "done" and t in model_task and not p["noresponse"] and x[0] in ("body", "rmc"):
+                pl["mux"].append((len(lines), "wake", owner.get(t), (model_task[t], x[0], x[1].hex() if x[0] == "body" else x[1])))
+                lines.append("mux wake %d" % model_task[t])
+        pl["model_task_of_caller"] = {owner.get(t): k for t, k in model_task.items()}
+
+    async def bursts(cfg):
+        for p in env.protos:
+            if not any(m["supported"] for m in p["methods"]): continue
+            for gi in range(6 if deep else 3):
+                await guarded("burst", burst(cfg, p, gi))
+
+    async def guarded(unit, coro):
+        """a unit of work; an exception of the library that escapes it is a reported failure with the input (`doing`)"""
+        try:
+            await coro
+        except Exception as e:
+            tb = traceback.format_exc()
+            leaf = e
+            while getattr(leaf, "exceptions", None): leaf = leaf.exceptions[0]      # what a task group wrapped
+            crashes.append({"unit": unit, "exc": "%s: %s" % (type(leaf).__name__, _short(leaf, 300)), "traceback": tb[-3000:],
+                            "doing": dict(doing), "in_library": _in_library(tb, repo)})
+
     async def main():
+        async def fc(cfg): forward_compat(cfg)
         for ci, cfg in enumerate(cfgs):
-            await session(ci, cfg)
+            for p in env.protos:       # one RMC connection per protocol (two protocols of a module may share an id)
+                await guarded("connection", proto_session(ci, cfg, p))
             if cfg[1]:
-                forward_compat(cfg)
+                await guarded("forward-compat", fc(cfg))
         # one sequence scenario set per task slice, under the slice's first nex.version / pid size
-        await sequences(cfgs[0])
+        await guarded("connection-sequence", sequences(cfgs[0]))
+        await bursts(cfgs[0])
         if len(cfgs) > 1 and cfgs[-1][0] != cfgs[0][0]:
-            await sequences(cfgs[-1])
+            await guarded("connection-sequence", sequences(cfgs[-1]))
+        if len(cfgs) > 1 and cfgs[-1] != cfgs[0]:
+            await bursts(cfgs[-1])
     anyio.run(main)
+    infra = [c for c in crashes if not c["in_library"]]
+    if infra:
+        raise RuntimeError("harness failure in unit %s while %r:\n%s" % (infra[0]["unit"], infra[0]["doing"], infra[0]["traceback"]))
 
     outs = driver_batch(exe, lines)
     res["lines"] = len(lines)
     for i in range(nsetup):
         if outs[i] != "ok": raise RuntimeError("driver rejected schema line %d: %r -> %r" % (i, lines[i][:200], outs[i]))
 
+    per_kind = {}
     def diff(key, what, detail):
-        if len(res["diffs"]) < 40:
+        kind = str(detail.get("vkey", "soft" if detail.get("soft") else key)).split(":")[0]      # at most 40 reported per kind of failure and worker
+        per_kind[kind] = per_kind.get(kind, 0) + 1
+        if per_kind[kind] <= 40:
             d = {"key": key, "what": what}; d.update(detail); res["diffs"].append(d)
         res["ndiffs"] = res.get("ndiffs", 0) + 1
+
+    def first_difference(expected, got):
+        e, g = expected.split(), got.split()
+        i = next((i for i, (x, y) in enumerate(zip(e, g)) if x != y), min(len(e), len(g)))
+        def show(tok):
+            if tok[:1] == "s" and len(tok) > 1:
+                try: return "%s (= %r)" % (_short(tok, 80), bytes.fromhex(tok[1:]).decode("utf8", "replace")[:40])
+                except ValueError: pass
+            return _short(tok, 80)
+        return "value #%d passed %s, arrived %s" % (i, show(e[i]) if i < len(e) else "<end>", show(g[i]) if i < len(g) else "<end>")
+
+    def count_na(ts):
+        n = 0
+        for t in ts:
+            if t[0] in ("str", "url"): n += V14.is_non_ascii(t[1])
+            elif t[0] == "list": n += count_na(t[1])
+            elif t[0] == "map": n += count_na([x for kv in t[1] for x in kv])
+            elif t[0] == "obj": n += count_na(t[2])
+        return n
+
+    def conc_check(key, i0, pl):
+        calls, n, nb = pl["calls"], len(pl["calls"]), pl["burst"]
+        pname = pl["proto"]
+        E = outs[i0:i0 + n]                                   # visible arguments per caller
+        def shown(i): return "%s(%s)" % (calls[i]["name"], _short(SV.vals(pl["args"][i]), 160))
+        base = {"module": name, "protocol": pname, "cfg": list(pl["cfg"]), "minor_version": pl["minor"],
+                "transport": "send yields to the event loop (caller side %r times, answering side %r times before the datagram is queued, %r times after; drawn per datagram), %s" % (
+                    pl["yields"]["c"], pl["yields"]["s"], pl["yields"]["after"], "one sender at a time (lock)" if pl["lock"] else "concurrent senders may overtake each other"),
+                "calls_started_together": [[calls[i]["name"], _short(SV.vals(pl["args"][i]), 1500)] for i in range(nb)],
+                "then_alone": [calls[nb]["name"], _short(SV.vals(pl["args"][nb]), 1500)],
+                "call_id_counter_at_start": pl["start_id"] if pl["start_id"] is not None else "fresh connection",
+                "implementation_returns_by_arrival": {mn: [_short(SV.vals(r), 1500) for r in rl] for mn, rl in pl["rets"].items()},
+                "observed": [{"caller": i, "method": calls[i]["name"], "flow": (pl["outcome"][i] or ("never returned",))[0]} for i in range(n)],
+                "requests_and_responses_sent": [list(w) for w in pl["wire"]][:40],
+                "vkey": "concurrent-calls:%s" % name,
+                "how": "one RMCClient pair over an in-memory transport whose send yields; start the listed calls as tasks of one task group on the same generated client, then the last call alone"}
+        tag("burst:%d-in-flight:%s" % (nb, "lock" if pl["lock"] else "free"))
+        res["cases"] += n
+        bad = []
+        # ---- the model of the client's call matching, fed with the observed client-side events
+        ids = []
+        for li, kind, who, x in pl["mux"]:
+            o = outs[li]
+            if "SPECDIFF" in o or "H-IDS-BROKEN" in o or o.startswith("crash") or o == "bad-op":
+                bad.append("model: %s -> %s" % (lines[li][:60], o[:80]))
+            elif kind == "new":
+                if x[0] is not None and x[1] != x[0]: bad.append("the call id counter was at %d, the first request went out with call id %d" % x)
+                if x[0] is not None: tag("burst:call-id-counter-preset")
+            elif kind == "call":
+                w = o.split(";")[0].split()
+                if len(w) != 3 or w[0] != "sent" or int(w[2]) != x:
+                    bad.append("request of caller %s went out with call id %d, the model says %s" % (who, x, o))
+                ids.append(x)
+            elif kind == "wake":
+                t, k, v = x
+                want = "done %d %s" % (t, "body " + (v or "-") if k == "body" else "rmc %d" % v)
+                if o != want: bad.append("caller %s: request() gave %s, the model says %s" % (who, _short(want, 100), _short(o, 100)))
+        if len(set(ids)) != len(ids):
+            bad.append("call ids on the wire are not distinct: %r" % ids)
+        # ---- the property: every caller is matched with an arrival carrying its arguments whose returned values it got back
+        problems = []
+        by_method = {}
+        for i, m in enumerate(calls): by_method.setdefault(m["name"], []).append(i)
+        for mn, idxs in by_method.items():
+            m = calls[idxs[0]]
+            arr = pl["arrivals"][mn]
+            def args_ok(i, j):
+                if not E[i].startswith("ok ") or len(arr[j]) != len(m["request"]): return False
+                mask = SV.parse_val(E[i][3:])
+                return "ok [" + "".join(" " + real.canon(v["type"], a_, mk) for v, a_, mk in zip(m["request"], arr[j], mask)) + " ]" == E[i]
+            def result_ok(i, j):
+                if j >= len(pl["rets"][mn]): return False
+                li = pl["ret_line"][(mn, j)]
+                mvresp, msresp = outs[li], outs[li + 1]
+                oc = pl["outcome"][i]
+                if oc is None: return False
+                if pl["noresponse"]: return oc[0] == "ok" and oc[1] is None
+                if msresp == "err Other" and oc[0] == "rmcerror PythonCore::Exception": return True     # known: isinstance(response, common.Data)
+                if oc[0] != "ok" or not mvresp.startswith("ok "): return False
+                result = oc[1]
+                if len(m["response"]) > 1: vals = [getattr(result, v["name"], None) for v in m["response"]]
+                elif len(m["response"]) == 1: vals = [result]
+                else: return result is None
+                mask = SV.parse_val(mvresp[3:])
+                return "ok [" + "".join(" " + real.canon(v["type"], a_, mk) for v, a_, mk in zip(m["response"], vals, mask)) + " ]" == mvresp
+            ok = {(i, j) for i in idxs for j in range(len(arr)) if args_ok(i, j) and result_ok(i, j)}
+            match = {}                                         # arrival -> caller
+            def augment(i, seen):
+                for j in range(len(arr)):
+                    if (i, j) in ok and j not in seen:
+                        seen.add(j)
+                        if j not in match or augment(match[j], seen):
+                            match[j] = i
+                            return True
+                return False
+            unmatched = [i for i in idxs if not augment(i, set())]
+            if len(arr) != len(idxs):
+                problems.append("the implementation of %s was called %d times for %d calls" % (mn, len(arr), len(idxs)))
+            for i in unmatched:
+                oc = pl["outcome"][i]
+                mine = [j for j in range(len(arr)) if args_ok(i, j)]
+                theirs = [j for j in range(len(arr)) if j not in mine and result_ok(i, j)]
+                if oc is None:
+                    problems.append("caller %d %s never returned (its arguments reached the implementation: %s)" % (i, shown(i), bool(mine)))
+                elif not mine:
+                    problems.append("caller %d %s: no call of the implementation carried its arguments (flow %s)" % (i, shown(i), oc[0]))
+                elif oc[0] != "ok":
+                    problems.append("caller %d %s failed with %s although the implementation returned normally" % (i, shown(i), oc[0]))
+                elif theirs:
+                    k = next((k for k in idxs if k != i and any(args_ok(k, j) for j in theirs)), None)
+                    problems.append("caller %d %s was handed the values the implementation returned for %s" % (
+                        i, shown(i), "caller %d %s" % (k, shown(k)) if k is not None else "another call"))
+                else:
+                    problems.append("caller %d %s got values that differ from those the implementation returned for its arguments" % (i, shown(i)))
+        if problems:
+            tag("burst:FAILS")
+            diff(key, "%d calls in flight at the same time on one connection (%s, then one call alone): %s" % (
+                nb, pname, "; ".join(problems[:4]) + (" ... (%d problems)" % len(problems) if len(problems) > 4 else "")),
+                 dict(base, problems=problems, model_disagreements=bad))
+        elif bad:
+            diff(key, "burst of %d concurrent calls on %s: the client's call matching differs from the model: %s" % (nb, pname, "; ".join(bad[:3])), dict(base, soft=True, model_disagreements=bad))
+        else:
+            tag("burst:calls-matched", n)
+            res["keys"].append(key)
+            for i in range(n): res["keys"].append("%s:caller%d:%s" % (key, i, calls[i]["name"]))
+
+    for c in crashes:
+        d = c["doing"]
+        diff("%s:crash:%s" % (name, c["unit"]),
+             "the library raised %s outside any call of the harness that expects errors, while processing: %s" % (c["exc"], _short({k: v for k, v in d.items() if k not in ("args", "returns", "value", "calls")}, 300)),
+             {"module": name, "unit": c["unit"], "input": d, "traceback": c["traceback"], "vkey": "library-exception:%s:%s" % (name, c["unit"])})
 
     for kind, key, i0, pl in checks:
         res["cases"] += 1
@@ -348,6 +729,9 @@ def _task(repo, name, cfgs, seed, per_item, exe, deep, res):
             base = {"module": name, "protocol": pl["proto"], "method": m["name"], "method_id": m["id"], "cfg": list(pl["cfg"]),
                     "args": SV.vals(pl["args"])[:4000], "returns": SV.vals(pl["rets"])[:4000]}
             tag("rpc:" + ("hdr" if pl["cfg"][1] else "nohdr") + ":" + pl["flow"].split(" ")[0])
+            if pl["nonascii"]:
+                tag("rpc-nonascii-rep:" + pl["flow"].split(" ")[0])
+                tag("rpc-nonascii-rep:string-positions", count_na(pl["args"]) + count_na(pl["rets"]))
             if pl["flow"] != "ok":
                 if msresp == "err Other" and mreq.startswith("ok") and pl["flow"] == "rmcerror PythonCore::Exception":
                     # the generated server's isinstance test rejects what the implementation returned
@@ -355,7 +739,8 @@ def _task(repo, name, cfgs, seed, per_item, exe, deep, res):
                     diff(key, "%s.%s: the implementation returned a %s, the generated server rejects it (isinstance(response, common.Data) fails: its base class Gathering is not a Data) and the caller gets PythonCore::Exception" % (pl["proto"], m["name"], cls),
                          dict(base, vkey="result-type:anydata:" + cls))
                 else:
-                    diff(key, "call failed on the real code (%s); interpreter: request %s, response %s" % (pl["flow"], mreq[:40], msresp[:40]), dict(base, vkey="rpc:%s:%s.%s" % (name, pl["proto"], m["name"])))
+                    diff(key, "%s.%s(%s) returning %s failed on the real code (%s)%s; interpreter: request %s, response %s" % (
+                        pl["proto"], m["name"], _short(base["args"], 200), _short(base["returns"], 200), pl["flow"], " (non-ASCII text in every string position)" if pl["nonascii"] else "", mreq[:40], msresp[:40]), dict(base, vkey="rpc:%s:%s.%s" % (name, pl["proto"], m["name"])))
                 continue
             sargs = pl["sargs"]
             if sargs is None or len(sargs) != len(m["request"]):
@@ -364,7 +749,7 @@ def _task(repo, name, cfgs, seed, per_item, exe, deep, res):
             mask = SV.parse_val(mvreq[3:])
             got = "ok [" + "".join(" " + real.canon(v["type"], a, mk) for v, a, mk in zip(m["request"], sargs, mask)) + " ]"
             if got != mvreq:
-                diff(key, "arguments seen by the server implementation differ from those passed", dict(base, real=got[:4000], expected=mvreq[:4000], vkey="rpc:%s:%s.%s" % (name, pl["proto"], m["name"])))
+                diff(key, "%s.%s: arguments seen by the server implementation differ from those passed%s: %s" % (pl["proto"], m["name"], " (non-ASCII text in every string position)" if pl["nonascii"] else "", first_difference(mvreq, got)), dict(base, real=got[:4000], expected=mvreq[:4000], vkey="rpc:%s:%s.%s" % (name, pl["proto"], m["name"])))
                 continue
             if not pl["noresponse"]:
                 result = pl["result"]
@@ -374,7 +759,7 @@ def _task(repo, name, cfgs, seed, per_item, exe, deep, res):
                 mask = SV.parse_val(mvresp[3:])
                 got = "ok [" + "".join(" " + real.canon(v["type"], a, mk) for v, a, mk in zip(m["response"], vals, mask)) + " ]"
                 if got != mvresp or (not m["response"] and result is not None):
-                    diff(key, "values returned to the caller differ from those the implementation returned", dict(base, real=got[:4000], expected=mvresp[:4000], vkey="rpc:%s:%s.%s" % (name, pl["proto"], m["name"])))
+                    diff(key, "%s.%s: values returned to the caller differ from those the implementation returned%s: %s" % (pl["proto"], m["name"], " (non-ASCII text in every string position)" if pl["nonascii"] else "", first_difference(mvresp, got)), dict(base, real=got[:4000], expected=mvresp[:4000], vkey="rpc:%s:%s.%s" % (name, pl["proto"], m["name"])))
                     continue
             if len(res["samples"]) < 2 and 0 < len(mvreq) < 200:
                 res["samples"].append({"module": name, "method": pl["proto"] + "." + m["name"], "cfg": list(pl["cfg"]), "args": base["args"][:200], "returns": base["returns"][:200]})
@@ -403,6 +788,14 @@ def _task(repo, name, cfgs, seed, per_item, exe, deep, res):
                 diff(key, "the caller's Settings object was modified by the library after connection %d of %r: %r" % (pl["step"], pl["minors"], pl["changed"]), dict(base, changed=repr(pl["changed"])))
             else:
                 res["keys"].append(key)
+        elif kind == "selfrt":
+            tag("forward-compat:own-encoding-unreadable")
+            diff(key, "%s written by the library's own encoder (nex.version %d, structure headers on) cannot be %s: %s; value %s" % (
+                pl["struct"], pl["cfg"][0], "read back by its decoder" if pl["stage"] == "decode" else "encoded", pl["exc"], _short(pl["value"], 300)),
+                 {"module": name, "struct": pl["struct"], "cfg": [pl["cfg"][0], 1, pl["cfg"][2]], "value": pl["value"][:4000], "encoded_hex": (pl["hex"] or "")[:6000],
+                  "vkey": "struct-roundtrip:%s:%s" % (name, pl["struct"])})
+        elif kind == "conc":
+            conc_check(key, i0, pl)
         elif kind == "fc":
             mvis, mdec, mwf = outs[i0:i0 + 3]
             sname = pl["struct"]
